@@ -92,7 +92,7 @@ def spatial_average(
         coarse-grained input property in numpy ndarray
     """
     logger.info(f"Performing coarse-graining from {neighborfile}")
-    cg_input_property = np.copy(input_property)
+    cg_input_property = np.array(input_property, dtype=np.result_type(np.asarray(input_property).dtype, np.float64))
     with open(neighborfile, mode="r", encoding="utf-8") as fneighbor:
         for n in range(input_property.shape[0]):
             cnlist = read_neighbors(fneighbor, input_property.shape[1], Nmax)
